@@ -1,4 +1,5 @@
 import Swat4.Model.UseCases.Discovery
+import Swat4.Spec.ProbeOutcome
 import Swat4.Gen.Facts
 import Swat4.Lemmas.C13Run
 import Swat4.Lemmas.C13Exp
@@ -16,42 +17,10 @@ model `detailsprober`, `portprober` and `probeserver`; `AbsState.update` is the 
 namespace Swat4.C13
 open Swat4 Swat4.UC Std Swat4.C13Run
 
-/-! ## the transformation table: all 512 words × 2 goals × 3 outcomes -/
+/-! ## the transformation table: all 512 words × 2 goals × 3 outcomes
 
-inductive Outcome where
-  | success | retry | failure
-  deriving DecidableEq, Repr
-
-/-- declarative per-bit specification, written from the property text.  Bit indices:
-0 new, 1 master, 2 info, 3 details, 4 details_retry, 5 no_details, 6 port, 7 port_retry, 8 no_port.
-`new` ("no status yet") is cleared by every recorded outcome. -/
-def specBit (g : Goal) (o : Outcome) (i : Nat) (old : Bool) : Bool :=
-  match g, o, i with
-  | _, _, 0 => false
-  -- success: info and details (and port) set; failure and retry marks of the goal cleared
-  | .details, .success, 2 => true
-  | .details, .success, 3 => true
-  | .details, .success, 4 => false
-  | .details, .success, 5 => false
-  | .port, .success, 2 => true
-  | .port, .success, 3 => true
-  | .port, .success, 4 => false
-  | .port, .success, 5 => false
-  | .port, .success, 6 => true
-  | .port, .success, 7 => false
-  | .port, .success, 8 => false
-  -- a failure with retries left only adds the retry mark
-  | .details, .retry, 4 => true
-  | .port, .retry, 7 => true
-  -- the final failure: no details (dropping info/details/port and the mark) or no port
-  | .details, .failure, 2 => false
-  | .details, .failure, 3 => false
-  | .details, .failure, 4 => false
-  | .details, .failure, 5 => true
-  | .details, .failure, 6 => false
-  | .port, .failure, 7 => false
-  | .port, .failure, 8 => true
-  | _, _, _ => old
+`Outcome` and the declarative per-bit specification `specBit` live in `Spec/ProbeOutcome.lean` (same namespace, core only), so
+that the driver's `table` oracle evaluates the very definition the theorems below are about. -/
 
 def modelStatus (g : Goal) : Outcome → Status → Status
   | .success => successStatus g
@@ -1099,5 +1068,12 @@ example : C13Budget.QueueOK {} ∧ expFloor ((4 : Int) + 1) = 148 ∧ (148 : Int
 /-- the nine status bits and their names are the ones of `ds.Members()` / `BitString()` in the source
 (regenerated `Gen/Facts.lean`) -/
 theorem facts_ok : Facts.dsMemberValues = Status.members.map (·.toNat) ∧ Facts.dsMemberNames = Status.names := by decide
+
+/-- **the driver's `table` oracle is the specification of `outcome_table`, as a word**: `specWord` (`Spec/ProbeOutcome.lean`: the
+nine `specBit`s assembled into a number — what `Drv/C13.lean` compares the implementation's word with) equals the model's
+transformed word for every status word, goal and outcome.  So the oracle side (`specWord`) and the model side (`UC.*Status`) of
+the `table` verdict are two definitions of different origin that are proved to coincide — exhaustively, by kernel evaluation. -/
+theorem specWord_is_model (g : Goal) (o : Outcome) : ∀ w : Status, specWord g o w.toNat = (modelStatus g o w).toNat := by
+  cases g <;> cases o <;> decide
 
 end Swat4.C13
